@@ -1,7 +1,8 @@
 (* Extraction of the C06 model to OCaml (ExtrOcamlBasic + ExtrOcamlString only; nat stays unary).
-   mrun = machine of the current code, srun = Spec; prun (machine of the code before the fix commits)
-   and shapes are used for diagnosis / input histograms only. *)
+   mrun = machine of the current code, srun = Spec, wf_prog = the static class of programs the refinement
+   theorem covers; prun (machine of the code before the fix commits) and shapes are used for diagnosis /
+   input histograms only. *)
 From Coq Require Import Extraction ExtrOcamlBasic ExtrOcamlString.
 From Cb Require Import C06.Model C06.Pinned.
 Extraction Language OCaml.
-Extraction "C06/c06_model.ml" mrun srun prun shapes.
+Extraction "C06/c06_model.ml" mrun srun wf_prog prun shapes.
